@@ -4,6 +4,10 @@ go 1.19
 
 require github.com/weedbox/pokerface v0.0.0
 
-require github.com/google/uuid v1.3.0 // indirect
+require (
+	github.com/google/uuid v1.3.0 // indirect
+	github.com/weedbox/syncsaga v0.0.0-20230821071725-a634f0872340 // indirect
+	github.com/weedbox/timebank v0.0.0-20230713013837-bd7a6f808e3e // indirect
+)
 
 replace github.com/weedbox/pokerface => /repo
